@@ -163,8 +163,9 @@ def r1(ctx) -> None:
            "the written columns are exactly the attributes the constructor accepts (the derived transformed_expression is excluded)",
            construct="asdict(self, filter=exclude(transformed_expression))")
     fdf = ctx.fn(PRS, "Parameters.from_dataframe")
-    txt = norm(fdf.node)
-    ok = "df['expression'] = [expr if isinstance(expr, str) else None for expr in expressions]" in txt and "return cls.from_parameter_dict_list(df.to_dict(orient='records'))" in txt
+    txt = lib.xfn(fdf, ctx.repo)  # temporaries looked through
+    ok = "df['expression'] = [expr if isinstance(expr, str) else None for expr in df['expression'].to_list()]" in txt \
+        and "return cls.from_parameter_dict_list(df.to_dict(orient='records'))" in txt
     ctx.ob("C16-R1", "from_dataframe/expression-nan-to-none", ok, fdf, fdf.node, "NaN expressions (written as NA) come back as None, not as the string 'nan'",
            construct="expr if isinstance(expr, str) else None")
     ok = "for column_name in ['label', 'value']" in txt and "Missing required column" in txt
